@@ -237,8 +237,10 @@ def finish_analysis(prog: Program, rep: Report, rule: str = "R19.3") -> None:
     # where hasattr(...) is true
     loop = loops[0]
     n_close_paths = 0
+    # close = getattr(module, "close", None): the bound method under a local name
+    bound = {n.targets[0].id for n in ast.walk(loop) if isinstance(n, ast.Assign) and isinstance(n.targets[0], ast.Name) and isinstance(n.value, ast.Call) and unparse(n.value.func) == "getattr" and len(n.value.args) == 3 and isinstance(n.value.args[1], ast.Constant) and n.value.args[1].value == "close"}
     for p in enumerate_paths(loop.body):
-        closes = [c for c in path_calls(p) if isinstance(c.func, ast.Attribute) and c.func.attr == "close"]
+        closes = [c for c in path_calls(p) if (isinstance(c.func, ast.Attribute) and c.func.attr == "close") or (isinstance(c.func, ast.Name) and c.func.id in bound)]
         conds_true = all(t for _, t in p.conds())
         if conds_true:
             n_close_paths += 1
@@ -267,6 +269,13 @@ def finish_analysis(prog: Program, rep: Report, rule: str = "R19.3") -> None:
             rep.bad(rule, fi.qual, short(node), "the closing loop is left early; later modules are never closed", fi.loc(node))
     # nothing after a close may raise for a *missing* close: guarded by hasattr
     guards = [n for n in ast.walk(loop) if isinstance(n, ast.Call) and unparse(n.func) == "hasattr"]
+    if bound:
+        # getattr with a default never raises; the call must then sit under callable(name) / `is not None` / truthiness
+        for n in ast.walk(loop):
+            if isinstance(n, ast.If):
+                t = unparse(n.test)
+                if any(t in (f"callable({b})", f"{b} is not None", b, f"{b} is not None and callable({b})") for b in bound):
+                    guards.append(n)
     rep.check(rule, fi.qual, "hasattr guard", bool(guards), what_bad="close() is not guarded by hasattr: plug-ins without close crash the run at the end", what_ok="guarded", loc=fi.loc(loop))
 
 
